@@ -204,6 +204,7 @@ def run(report, p):
     include_rules(report, p, 'c01', ['R1.1'], 'a record carries a correct digest only if the whole file is hashed')
     include_rules(report, p, 'c13', ['R13.3'], 'record keys must never carry an absolute location')
     include_rules(report, p, 'c08', ['R8.7'], 'with a nested history the folder of the nested root must get its directory record in the parent manifest, with or without directory hashes')
+    include_rules(report, p, 'c12', ['R12.6'], 'the stored pattern list must come back in the order given (negated patterns): otherwise the next generation silently misses a record')
     include_rules(report, p, 'c03', ['R3.9'], 'create dispatches to the folder / single-file worker on every path')
     include_rules(report, p, 'c10', ['R10.3'], 'the path written into a record is the name on disk: the local-to-POSIX conversion only converts separators (no normalisation, folding or trimming)')
     report.not_decided += ["that the record set equals the tree for concrete trees (needs C01/C04/C08/C12 and run time)", "names with unusual characters at run time (see C10 for escaping)"]
